@@ -1,15 +1,14 @@
 CONSTANTS
-  Setup = "hot"
-  NW = 2
+  Setup = "fresh"
+  NW = 0
   SyncCap = 1
-  MaxTicks = 1
-  MaxJPolls = 1
+  MaxTicks = 2
+  MaxJPolls = 3
   MaxWakes = 1
-  JCmds = {}
+  JCmds = {"poll", "hdrop", "cancel", "detach"}
   HCmds = {"tick", "clear", "execdrop"}
   Spurious = TRUE
   Strict = TRUE
-  Fix = {"D10b"}
+  Fix = {"D10a", "D10b", "D11", "D12"}
 SPECIFICATION Spec
 INVARIANTS NoErr HomeOnly ExactlyOnce NoWakerLeak RcMatches NoLostJoinWake PendingBound ScntOk
-
